@@ -45,12 +45,36 @@ CHECKS['C19'] = {'technique': MS + '; handler-mode trace queries', 'engine': 'mi
     'text': 'Bounded symbolic verification: collect_bank_fees in handler mode (three transfers, routes liquidity vault -> insurance vault / fee vault / global fee wallet ATA, amounts = int(min(bucket, remaining liquidity)) in order, buckets fall by the same amounts, ATA check present); claim_emissions / settle (cap by remaining, conservation, flag gating, write set); calc_emissions never above the exact formula; admin-only drains are part of C08.b.',
     'note': _H}
 CHECKS['C04'] = {'technique': MS + '; compositional (valuation, accumulation, decision, wiring)', 'engine': 'mirsym',
-    'text': 'Bounded symbolic verification, compositional: per-position calc_weighted_asset_value / calc_weighted_liab_value equal an independently written reference (price type and bias, weights incl. e-mode max, USD-cap discount, zeroing rules, error propagation) on every path; accumulation over position lists (<= 4 quick / 8 thorough) equals the sums; check_account_health accepts iff assets >= liabilities and the risk-tier rule holds (and never rejects positive health for another reason); risk-tier rule equals the reference on lists <= 3/5; borrow/withdraw/liquidate handlers call the check after the mutation and sort and propagate its error.',
-    'note': _H + ' Not decided: reconcile_emode_configs (BTreeMap intersection of e-mode configs) and the f64 copies in HealthCache; oracle byte parsing is C09.'}
+    'text': 'Bounded symbolic verification, compositional: per-position calc_weighted_asset_value / calc_weighted_liab_value equal an independently written reference (price type and bias, weights incl. e-mode max, USD-cap discount, zeroing rules, error propagation) on every path; accumulation over position lists (<= 4 quick / 6 thorough; 8 did not finish in 30 min) equals the sums; check_account_health accepts iff assets >= liabilities and the risk-tier rule holds (and never rejects positive health for another reason); risk-tier rule equals the reference on lists <= 3/5; borrow/withdraw/liquidate and the Kamino/Solend withdraw handlers call the check after the mutation and sort and propagate its error; reconcile_emode_configs (C04.f) equals the intersection with minimum weights for 1-3 configs (thorough 4) of up to 2 (thorough 3) non-empty entries.',
+    'note': _H + ' Not decided: reconcile shapes beyond the stated ones and the f64 copies in HealthCache; BTreeMap is modelled as an association list (iteration order not modelled; the result is re-sorted). Oracle byte parsing is trusted (C09).'}
 CHECKS['C05'] = {'technique': MS + '; handler-mode with the fee arithmetic inlined', 'engine': 'mirsym',
     'text': 'Bounded symbolic verification: pre-/post-liquidation checks against position lists <= 16 (find unrolled): not in flash loan, the named position has debt >= 1 share and < 1 share of deposit, maintenance health <= 0 before and after and strictly better after; the liquidate handler with calc_value/calc_amount inlined: relief = value(seized, low asset price, 95%) at the high spot debt price, liquidator leg 97.5%, insurance fee = difference >= 0 with whole tokens to the insurance vault; prices > 0 before use; over-liquidation guard dominates the seize; wrapper modes and banks of the four legs.',
     'note': _H + ' Decimals enumerated (quick: 6/9).'}
 CHECKS['C09'] = {'technique': MS + '; the Pyth receiver SDK staleness/verification function executed from its own MIR; assume/guarantee for the exponent scaling leaf', 'engine': 'mirsym',
     'text': 'Bounded symbolic verification: try_from_bank_with_max_age for every oracle setup (account count, key at each index, Pyth owner, single load on account 0 with the caller\'s clock and max age, companion staleness, errors propagated); Switchboard load_checked (owner, age boundary); Pyth load_price_update_v2_checked (owner, discriminator operands) and load_checked with the SDK\'s get_price_no_older_than_with_custom_verification_level inlined (Full verification, publish_time + max_age >= now for all i64/u64); get_price_of_type for Pyth and Switchboard equals the reference (EMA iff time-weighted, confidence = min(k*conf, 5% price), rejection above price*max_conf, Low/High = price -/+ confidence) with the 10^e scaling leaf proved for all 37 exponents; get_oracle_max_age; zero-price guard dominates receivership withdrawals (marginfi, Kamino, Solend). Bad-oracle valuation rules are C04.a/b; liquidation price positivity is C05.c.',
     'note': _H + ' Trusted: borsh/bytemuck decoding of oracle accounts (decoded feeds are arbitrary symbolic structs), the 8-byte memcmp, Switchboard result semantics. Not decided: the Drift withdraw handler (path explosion, >50 min) and the exchange-rate adjusters (C20).'}
+
+# obligations added after the first round of seeded changes (see DESIGN.md 0a): appended to the level text of each property
+_EXTRA = {
+ 'C01': ' Plus handler mode: borrow fee split (C01.b.borrow), tokens moved vs amount booked for deposit/withdraw/repay incl. the transfer-fee gross-up at the current epoch (C01.b.*), frame lemma for the two cache refreshers (C01.c).',
+ 'C02': ' Plus handler mode: account migration moves positions without duplicating them (C02.f).',
+ 'C05': ' Plus the per-position valuation behind the health figures (C05.d = C04.a/b).',
+ 'C07': ' Plus the per-position valuation behind the bankruptcy assessment (C07.f = C04.a/b: oracle errors propagate for Equity).',
+ 'C10': ' Plus the account-flag helpers set/unset/get for all flag words (C10.g).',
+ 'C11': ' Plus the account-flag helpers set/unset/get for all flag words (C11.f).',
+ 'C12': ' Plus frame conditions for the oracle-configuration, fixed-price, fee-destination, tokenless-repay, price-cache, staked-settings and curve-migration handlers, and the deleverage daily-limit wiring in withdraw (C12.d).',
+ 'C13': ' Plus the write paths propagate_staked_settings and migrate_curve (C13.d).',
+ 'C14': ' Plus the Kamino/Solend/Drift deposit and Kamino/Solend withdraw handlers (C14.b) and the verbatim propagation of the pause state into the group cache (C14.e).',
+ 'C16': ' Plus find_or_create / find on 16 symbolic slots (C16.a: first existing slot or first free slot, integration cap shared across venues), sort_balances comparator and range (C16.b), asset-tag check wired to the account whose position is opened (C16.h), integration deposit/withdraw handlers.',
+ 'C18': ' Plus validate_seven_point accepts only the domain the curve obligations assume, and the calculator copies it verbatim (C18.v).',
+ 'C20': ' Plus the adapter applies each adjuster to the field it stores into, with one common rate (C20.d = C09.g).',
+}
+for _p, _t in _EXTRA.items():
+    CHECKS[_p] = dict(CHECKS[_p]); CHECKS[_p]['text'] = CHECKS[_p]['text'] + _t
+# thorough tier only: a Kani/CBMC harness re-decides one obligation of these properties on the compiled code (second engine)
+for _p, _t in (('C09', ' Thorough tier adds C09.k: Kani/CBMC harness on SwitchboardPullPriceFeed::load_checked with the REAL byte-level parsing of a symbolic account.'),
+               ('C15', ' Thorough tier adds C15.k: the same inductive step decided by Kani/CBMC on the compiled code.'),
+               ('C16', ' Thorough tier adds C16.k: validate_asset_tags over 16 symbolic slots decided by Kani/CBMC on the compiled code.')):
+    CHECKS[_p] = dict(CHECKS[_p]); CHECKS[_p]['text'] += _t; CHECKS[_p]['engine'] = 'mirsym (+ kani in the thorough tier)'
+    CHECKS[_p]['technique'] += '; thorough tier: Kani 0.68/CBMC proof harness over the compiled code (second engine, disagreement = undecided)'
 NOT_APPLICABLE = {}
